@@ -367,6 +367,7 @@ func runC05(c *Ctx) {
 
 	checkTxnCommit(c)
 	checkFailedVerbIsError(c, reach)
+	checkWriteErrorsNotSwallowed(c, reach)
 	checkVerbCoverage(c, reach)
 }
 
@@ -889,4 +890,90 @@ func checkRowsNotMutatedInPlace(c *Ctx) {
 	if nFns < 800 {
 		r.MissingInstance("C05.8", "<functions>", fmt.Sprintf("only %d functions", nFns))
 	}
+}
+
+
+// C05.9: inside the transaction's call tree the error of a writing helper is
+// never swallowed: with the helper's error known non-nil, every return the
+// caller can still reach is a failing return. (`if err := write(); err == nil
+// { … }` with a shadowed err, an error assigned to a variable that is
+// overwritten before it is tested, an error compared but not returned: the
+// transaction would commit although one of its operations failed.)
+func checkWriteErrorsNotSwallowed(c *Ctx, reach map[*ssa.Function][]string) {
+	p, r := c.P, c.R
+	var fns []*ssa.Function
+	for f := range reach {
+		fns = append(fns, f)
+	}
+	sort.Slice(fns, func(i, j int) bool { return fns[i].String() < fns[j].String() })
+	n := 0
+	seenKey := map[string]int{}
+	for _, f := range fns {
+		if core.ErrResultIndex(f) < 0 {
+			continue
+		}
+		for _, b := range f.Blocks {
+			for _, in := range b.Instrs {
+				call, ok := in.(*ssa.Call)
+				if !ok {
+					continue
+				}
+				g := call.Call.StaticCallee()
+				if g == nil || g.Pkg == nil || !core.IsConsul(g.Pkg.Pkg.Path()) || core.ErrResultIndex(g) < 0 || !mayWrite(p, g) {
+					continue
+				}
+				n++
+				base := core.FuncName(f) + "→" + core.FuncName(g)
+				seenKey[base]++
+				construct := base
+				if seenKey[base] > 1 {
+					construct = fmt.Sprintf("%s#%d", base, seenKey[base])
+				}
+				pos := p.Pos(call.Pos())
+				var errV ssa.Value
+				if core.IsErrorType(call.Type()) {
+					errV = call
+				} else if call.Referrers() != nil {
+					for _, rr := range *call.Referrers() {
+						if ex, ok := rr.(*ssa.Extract); ok && ex.Index == core.ErrResultIndex(g) {
+							errV = ex
+						}
+					}
+				}
+				if errV == nil || errV.Referrers() == nil || len(*errV.Referrers()) == 0 {
+					r.Violate("C05.9", construct, pos, "the error of a writing helper is dropped: a failed operation does not fail the transaction")
+					continue
+				}
+				bad := ""
+				check := func(rt *ssa.Return, kind core.RetKind) {
+					if kind != core.RetFailure && bad == "" {
+						bad = "with " + core.FuncName(g) + " having failed, the function can still return without error at " + p.Pos(rt.Pos())
+					}
+				}
+				// a return in the call's own block
+				if rt, ok := b.Instrs[len(b.Instrs)-1].(*ssa.Return); ok {
+					v := core.ResolveResult(rt, core.ErrResultIndex(f))
+					if v != errV {
+						check(rt, core.ClassifyReturn(rt))
+					}
+				}
+				for si := range b.Succs {
+					nf := core.NewNilFlow(b, si, map[ssa.Value]core.Tri{errV: core.False})
+					for _, rt := range core.Returns(f) {
+						if rt.Block() == b || !nf.Reached(rt.Block()) {
+							continue
+						}
+						check(rt, nf.ReturnKind(rt))
+					}
+				}
+				if bad != "" {
+					r.Violate("C05.9", construct, pos, bad+": the transaction would commit although one of its operations failed")
+				} else {
+					r.Hold("C05.9", construct, pos, "a failure of the helper makes every reachable return a failing one")
+				}
+			}
+		}
+	}
+	r.Floor("C05.9", 40)
+	_ = n
 }
